@@ -400,7 +400,7 @@ func TestC18Exact(t *testing.T) {
 	if run.NViolations() > 0 {
 		return
 	}
-	h.RapidSetup(h.N(6000, 500000), "c18exact")
+	h.RapidSetup(h.N(6000, 2000000), "c18exact")
 	rapid.Check(t, func(rt *rapid.T) {
 		d := gen15(rt, "x")
 		run.CountKey(d.lit(0), numNontrivial(d), "random")
@@ -434,7 +434,7 @@ func TestC18Real(t *testing.T) {
 	if run.NViolations() > 0 {
 		return
 	}
-	h.RapidSetup(h.N(3000, 200000), "c18real")
+	h.RapidSetup(h.N(3000, 600000), "c18real")
 	rapid.Check(t, func(rt *rapid.T) {
 		d := gen15(rt, "x")
 		if rapid.Bool().Draw(rt, "small") {
@@ -455,7 +455,7 @@ func TestC18Real(t *testing.T) {
 func TestC18MaxMin(t *testing.T) {
 	run := h.Begin("C18", "maxmin", "rapid: lists of 1-6 decimals with duplicates and equal values spelled differently, passed as arguments and through a spread array; oracle: the result equals one argument by value and bounds all the others; non-trivial: lists of >=3 with a duplicate or a negative value; distinct by list")
 	defer run.End(t)
-	h.RapidSetup(h.N(3000, 200000), "c18maxmin")
+	h.RapidSetup(h.N(3000, 1000000), "c18maxmin")
 	rapid.Check(t, func(rt *rapid.T) {
 		n := rapid.IntRange(1, 6).Draw(rt, "n")
 		var list []decOperand
@@ -500,7 +500,7 @@ func TestC18Bits(t *testing.T) {
 	if run.NViolations() > 0 {
 		return
 	}
-	h.RapidSetup(h.N(3000, 200000), "c18bits")
+	h.RapidSetup(h.N(3000, 1000000), "c18bits")
 	gen := func(rt *rapid.T, l string) int64 {
 		switch rapid.IntRange(0, 2).Draw(rt, l+"k") {
 		case 0:
